@@ -185,7 +185,8 @@ def main(tier: str, only: dict | None = None) -> int:
         "creation-traceback tagging off (the default); pairs that differ only in "
         "non_equality_tags are not constrained",
         "hash seeds are sampled (4 quick / 16 thorough)",
-        "loopy translation units enter Canon through loopy's own persistent key",
+        "loopy translation units enter Canon through the digest of a canonical dump of "
+        "their kernels, not through any key builder",
     ]
     return run.finish()
 
